@@ -3,6 +3,7 @@ CONSTANTS
   Creators = {"g1", "g2"}
   MaxPkgs = 3
   ATOMIC = TRUE
+  REGFIRST = TRUE
   PTRACK = FALSE
-INVARIANTS C12_DistinctIds C12_SetupSucceedsOnAck C12_RoutedToHeaderChannel C12_InOrder C12_NoCrossTalk C12_NoReuseAfterClose
+INVARIANTS C12_DistinctIds C12_SetupSucceedsOnAck C12_RoutedToHeaderChannel C12_InOrder C12_NoCrossTalk C12_NoReuseAfterClose C12_AckReachesItsChannel
 CHECK_DEADLOCK FALSE
